@@ -101,11 +101,25 @@ def c07_send_step(env):
             post["incoming_window"] == v["incoming_window"],
             post["outgoing_window"] == v["outgoing_window"],
         )
-        o.prove(f"path{i}:counters", hyp + p.cond, goal)
+        def replay_send_step(m, v=v, tag_d=tag_d):
+            noi, riw = model_value(m, v["next_outgoing_id"]), model_value(m, v["remote_incoming_window"])
+            has_tag = model_value(m, tag_d)
+            riw1 = riw if riw > 0 else 1  # the public entry point only sends with the window open
+            cmd = f"transfer 3 0 {noi} 10 10 {model_value(m, v['next_incoming_id'])} 0 {riw1} 0 {has_tag} 0"
+
+            def bad(js):
+                if js.get("panic") or not js["ok"] or len(js["frames"]) != 1:
+                    return True
+                did = js["frames"][0][0]
+                return js["next_outgoing_id"] != (noi + 1) % (1 << 32) or js["remote_incoming_window"] != riw1 - 1 or (did != noi if has_tag else did != -1)
+
+            return cmd, bad
+
+        o.prove(f"path{i}:counters", hyp + p.cond, goal, replay=replay_send_step)
         t = p.locals["_3"][env.fidx("Transfer", "delivery_id")]
         stamped = z3.And(t["#d"] == 1, t[("as", "Some")][0] == v["next_outgoing_id"])
         untouched = z3.And(t["#d"] == did_d, z3.Implies(did_d == 1, t[("as", "Some")][0] == did_v))
-        o.prove(f"path{i}:delivery-id", hyp + p.cond, z3.If(tag_d == 1, stamped, untouched))
+        o.prove(f"path{i}:delivery-id", hyp + p.cond, z3.If(tag_d == 1, stamped, untouched), replay=replay_send_step)
         for (d, ok, c) in p.obligations:
             o.prove(f"path{i}:{d}", hyp + c, ok)
     o.cover("a returning path exists with a delivery-tag", hyp + [z3.Or(*[pc(p) for p in paths if p.end == "return"]), tag_d == 1] if n_ret else [z3.BoolVal(False)])
@@ -125,11 +139,11 @@ def flow_agg(env, tag="flow"):
 
 def c07_recompute(env):
     o = Obligation("c07_flow_recompute", "C07")
-    o.desc = "on a flow from the peer: remote-incoming-window := next-incoming-id_flow + incoming-window_flow - next-outgoing-id_endpoint in RFC-1982 serial arithmetic (unset next-incoming-id => initial-outgoing-id); next-incoming-id := next-outgoing-id_flow; remote-outgoing-window := outgoing-window_flow"
+    o.desc = "on a flow from the peer: remote-incoming-window := next-incoming-id_flow + incoming-window_flow - next-outgoing-id_endpoint in RFC-1982 serial arithmetic, floored at 0 when the frames in flight already exceed the (shrunk) window (unset next-incoming-id => initial-outgoing-id); next-incoming-id := next-outgoing-id_flow; remote-outgoing-window := outgoing-window_flow"
     fn = env.fn(r"^session::<impl at [^>]*>::on_incoming_flow_inner::\{closure#0\}$")
     o.functions = [fn.name, "util::Constant::value (inlined)"]
     o.bounds = ["the coroutine body from its initial state up to its first suspension/return; all 32-bit values"]
-    o.assumes = ["peer is consistent: the frames in flight fit the advertised window, next-outgoing-id - next-incoming-id_flow (mod 2^32) <= incoming-window_flow"]
+    o.assumes = []
     ex = env.executor(inline=INLINE_CONST)
     S, v = session_pre(env)
     F, f = flow_agg(env)
@@ -143,12 +157,16 @@ def c07_recompute(env):
     a = z3.If(f["nii_d"] == 1, f["nii_v"], v["initial_outgoing_id"])
     in_flight = v["next_outgoing_id"] - a
     w = f["incoming_window"]
-    hyp = ex.assumptions + [z3.ULE(f["nii_d"], 1), z3.ULE(in_flight, w)]
+    hyp = ex.assumptions + [z3.ULE(f["nii_d"], 1)]
+    # frames the peer has not accounted for come out of the window it advertises; if they already
+    # exceed it (the peer shrank its window) nothing more may be sent: the window is 0, not negative
+    want = z3.If(z3.ULE(in_flight, w), w - in_flight, z3.BitVecVal(0, 32))
 
     def replay(m):
         cmd = f"flow {session_cmd(v, m)} {model_value(m, f['nii_d'])} {model_value(m, f['nii_v'])} {model_value(m, f['incoming_window'])} {model_value(m, f['next_outgoing_id'])} {model_value(m, f['outgoing_window'])}"
         aa = model_value(m, a)
-        exp = (model_value(m, w) - ((model_value(m, v['next_outgoing_id']) - aa) % (1 << 32))) % (1 << 32)
+        infl = (model_value(m, v['next_outgoing_id']) - aa) % (1 << 32)
+        exp = model_value(m, w) - infl if infl <= model_value(m, w) else 0
         return cmd, (lambda js: js.get("panic") or js["remote_incoming_window"] != exp or js["next_incoming_id"] != model_value(m, f["next_outgoing_id"]) or js["remote_outgoing_window"] != model_value(m, f["outgoing_window"]))
 
     n = 0
@@ -159,7 +177,7 @@ def c07_recompute(env):
         if post["remote_incoming_window"] is None:
             continue
         n += 1
-        goal = z3.And(post["remote_incoming_window"] == w - in_flight, post["next_incoming_id"] == f["next_outgoing_id"], post["remote_outgoing_window"] == f["outgoing_window"], post["next_outgoing_id"] == v["next_outgoing_id"])
+        goal = z3.And(post["remote_incoming_window"] == want, post["next_incoming_id"] == f["next_outgoing_id"], post["remote_outgoing_window"] == f["outgoing_window"], post["next_outgoing_id"] == v["next_outgoing_id"])
         o.prove(f"path{i}({p.end}):window", hyp + p.cond, goal, replay=replay)
         for (d, ok, c) in p.obligations:
             if "unreachable" in d:
@@ -167,6 +185,7 @@ def c07_recompute(env):
     allp = [pc(p) for p in paths if p.end != "unwind"]
     o.cover("flow whose window limit wraps past 2^32", hyp + [z3.Or(*allp), f["nii_d"] == 1, z3.UGT(f["nii_v"], 0xFFFFFF00), z3.Not(z3.BVAddNoOverflow(f["nii_v"], w, False)), in_flight != w])
     o.cover("flow with next-incoming-id unset", hyp + [z3.Or(*allp), f["nii_d"] == 0])
+    o.cover("peer shrinks its window below the frames in flight", hyp + [z3.Or(*allp), z3.UGT(in_flight, w), z3.ULT(in_flight, 1000)])
     return [o]
 
 
@@ -446,7 +465,23 @@ def c12_send(env):
             is_ready, is_ok = poll_ready_result(p.ret)
             post = p.locals["@self"][env.fidx("Connection", "local_state")]["#d"]
             sends = count_calls(p, r"SinkExt<.*>>::send$")
-            o.prove(f"path{i}:one-frame", hyp + p.cond, z3.BoolVal(sends == 1))
+
+            def replay_c12(m, d=d, err_d=err_d, which=which):
+                st0 = model_value(m, d)
+                names = {v_: k_ for k_, v_ in E.items()}
+                if which == "send_open":
+                    nxt_name = spec_open.get(names[st0])
+                    cmd = f"conn_send_open {st0}"
+                    frames_ok = lambda js: js["opens"] == 1 and js["closes"] == 0 and js["others"] == 0  # noqa: E731
+                else:
+                    e = model_value(m, err_d) == 1
+                    nxt_name = (spec_close_error if e else spec_close_clean).get(names[st0])
+                    cmd = f"conn_send_close {st0} {int(e)}"
+                    frames_ok = lambda js, e=e: js["closes"] == 1 and js["opens"] == 0 and js["others"] == 0 and js["close_err"] == e  # noqa: E731
+                want_state = E[nxt_name] if nxt_name else st0
+                return cmd, (lambda js: js.get("panic") or not frames_ok(js) or js["state"] != want_state or js["ok"] != (nxt_name is not None))
+
+            o.prove(f"path{i}:one-frame", hyp + p.cond, z3.BoolVal(sends == 1), replay=replay_c12)
             if z3.is_true(z3.simplify(is_ready)) and is_ok is not None:
                 nready += 1
                 if which == "send_open":
@@ -456,14 +491,64 @@ def c12_send(env):
                     legal = z3.Or(*[d == E[k] for k in spec_close_clean])
                     nxt = z3.If(err_d == 1, spec_if(d, {k: cs(vv) for k, vv in spec_close_error.items()}, d, E), spec_if(d, {k: cs(vv) for k, vv in spec_close_clean.items()}, d, E))
                 # a sink error is the only other way to fail: `is_ok` false with a legal state means the transport failed
-                o.prove(f"path{i}:ok-implies-legal-and-next-state", hyp + p.cond + [is_ok], z3.And(legal, post == nxt))
-                o.prove(f"path{i}:illegal-state-fails-unchanged", hyp + p.cond + [z3.Not(legal)], z3.And(z3.Not(is_ok), post == d))
+                o.prove(f"path{i}:ok-implies-legal-and-next-state", hyp + p.cond + [is_ok], z3.And(legal, post == nxt), replay=replay_c12)
+                o.prove(f"path{i}:illegal-state-fails-unchanged", hyp + p.cond + [z3.Not(legal)], z3.And(z3.Not(is_ok), post == d), replay=replay_c12)
             else:
                 # pending: nothing decided yet, the state must be untouched
                 o.prove(f"path{i}:pending-leaves-state", hyp + p.cond, post == d)
         o.cover("a ready path exists", [z3.BoolVal(nready > 0)])
         out.append(o)
     return out
+
+
+# ---- plain-Python transcriptions of the same spec tables, used to judge native replays -------
+
+
+def py_session_end(st, err):
+    if st in (1, 2, 3):
+        return 5, False
+    if st in (4, 6):
+        return 0, not err
+    return st, False
+
+
+def py_session_send_end(st, err):
+    if st == 3:
+        return (6 if err else 4), True
+    if st == 5:
+        return 0, True
+    return st, False
+
+
+def py_session_send_begin(st):
+    return {0: (1, True), 2: (3, True)}.get(st, (st, False))
+
+
+def py_link_detach(st, closed, err):
+    attachish = (5, 1, 3, 6, 2, 4)
+    if closed:
+        if st in attachish:
+            return 11, not err
+        if st == 7:
+            return 11, False
+        if st == 10:
+            return 12, not err
+        return st, False
+    if st == 5:
+        return 8, not err
+    if st == 7:
+        return 9, not err
+    return st, False
+
+
+def py_link_send_detach(st, closed):
+    if closed:
+        return {5: (10, True), 11: (12, True)}.get(st, (st, False))
+    return {5: (7, True), 8: (9, True)}.get(st, (st, False))
+
+
+def session_state_cmd(m, d):
+    return f"{model_value(m, d)} 0 0 10 10 0 0 0 0"
 
 
 def c13_session(env):
@@ -497,9 +582,14 @@ def c13_session(env):
         begun = z3.Or(d == E["BeginSent"], d == E["BeginReceived"], d == E["Mapped"])
         ending = z3.Or(d == E["EndSent"], d == E["Discarding"])
         nxt = z3.If(begun, ss("EndReceived"), z3.If(ending, ss("Unmapped"), d))
-        o.prove(f"path{i}:next-state", hyp + p.cond, post == nxt)
+        def replay_end(m, d=d, err_d=err_d):
+            st0, e = model_value(m, d), model_value(m, err_d) == 1
+            want = py_session_end(st0, e)
+            return f"end {session_state_cmd(m, d)} {int(e)}", (lambda js: js.get("panic") or (js["state"], js["ok"]) != want)
+
+        o.prove(f"path{i}:next-state", hyp + p.cond, post == nxt, replay=replay_end)
         # clean completion only when we had ended first and the peer reports no error
-        o.prove(f"path{i}:ok-iff-clean-completion", hyp + p.cond, ok == z3.And(ending, err_d == 0))
+        o.prove(f"path{i}:ok-iff-clean-completion", hyp + p.cond, ok == z3.And(ending, err_d == 0), replay=replay_end)
         if EE and ("as", "Err") in p.ret and isinstance(p.ret[("as", "Err")].get(0), mir.Agg) and "#d" in p.ret[("as", "Err")][0]:
             ed = p.ret[("as", "Err")][0]["#d"]
             want = z3.If(z3.Or(begun, ending), z3.If(err_d == 1, z3.BitVecVal(EE["RemoteEndedWithError"], 64), z3.BitVecVal(EE["RemoteEnded"], 64)), z3.BitVecVal(EE["IllegalState"], 64))
@@ -534,26 +624,38 @@ def c13_session(env):
             is_ready, is_ok = poll_ready_result(p.ret)
             post = session_post(env, p)["local_state"]
             sends = count_calls(p, r"mpsc::Sender::<.*>::send$")
+
+            def replay_send(m, d=d, err_d=err_d, which=which):
+                st0 = model_value(m, d)
+                if which == "send_end":
+                    e = model_value(m, err_d) == 1
+                    want_state, legal_ = py_session_send_end(st0, e)
+                    cmd = f"send_end {session_state_cmd(m, d)} {int(e)}"
+                else:
+                    want_state, legal_ = py_session_send_begin(st0)
+                    cmd = f"send_begin {session_state_cmd(m, d)}"
+                return cmd, (lambda js: js.get("panic") or js["state"] != want_state or (js["ok"] and not legal_) or (js["frames"] > 1) or (js["frames"] > 0 and not legal_))
+
             o.prove(f"path{i}:at-most-one-frame", hyp + p.cond, z3.BoolVal(sends <= 1))
             if which == "send_end":
                 legal = z3.Or(d == E["Mapped"], d == E["EndReceived"])
                 nxt = z3.If(d == E["Mapped"], z3.If(err_d == 1, ss("Discarding"), ss("EndSent")), z3.If(d == E["EndReceived"], ss("Unmapped"), d))
                 # the state changes before the frame is queued (documented: "change the state whether sending succeeds or not")
-                o.prove(f"path{i}:state", hyp + p.cond, post == nxt)
+                o.prove(f"path{i}:state", hyp + p.cond, post == nxt, replay=replay_send)
                 o.prove(f"path{i}:illegal-sends-nothing", hyp + p.cond + [z3.Not(legal)], z3.BoolVal(sends == 0) if sends else z3.BoolVal(True))
                 if sends:
                     o.prove(f"path{i}:frame-only-when-legal", hyp + p.cond, legal)
                 if z3.is_true(z3.simplify(is_ready)) and is_ok is not None:
                     nready += 1
-                    o.prove(f"path{i}:ok-implies-legal", hyp + p.cond + [is_ok], legal)
+                    o.prove(f"path{i}:ok-implies-legal", hyp + p.cond + [is_ok], legal, replay=replay_send)
             else:
                 legal = z3.Or(*[d == E[k] for k in spec])
                 if sends:
                     o.prove(f"path{i}:frame-only-when-legal", hyp + p.cond, legal)
                 if z3.is_true(z3.simplify(is_ready)) and is_ok is not None:
                     nready += 1
-                    o.prove(f"path{i}:ok-implies-next-state", hyp + p.cond + [is_ok], z3.And(legal, post == spec_if(d, {k: ss(vv) for k, vv in spec.items()}, d, E)))
-                    o.prove(f"path{i}:failure-leaves-state", hyp + p.cond + [z3.Not(is_ok)], post == d)
+                    o.prove(f"path{i}:ok-implies-next-state", hyp + p.cond + [is_ok], z3.And(legal, post == spec_if(d, {k: ss(vv) for k, vv in spec.items()}, d, E)), replay=replay_send)
+                    o.prove(f"path{i}:failure-leaves-state", hyp + p.cond + [z3.Not(is_ok)], post == d, replay=replay_send)
                 else:
                     o.prove(f"path{i}:pending-leaves-state", hyp + p.cond, post == d)
         o.cover("a ready path exists", [z3.BoolVal(nready > 0)])
@@ -598,17 +700,22 @@ def c13_link(env):
         in_attach = z3.Or(*[d == E[k] for k in attachish])
         nxt_closed = z3.If(in_attach, ls("CloseReceived"), z3.If(d == E["DetachSent"], ls("CloseReceived"), z3.If(d == E["CloseSent"], ls("Closed"), d)))
         nxt_open = z3.If(d == E["Attached"], ls("DetachReceived"), z3.If(d == E["DetachSent"], ls("Detached"), d))
-        o.prove(f"path{i}:next-state", hyp + p.cond, post == z3.If(closed, nxt_closed, nxt_open))
+        def replay_ld(m, d=d, closed=closed, err_d=err_d, oh_d=oh_d):
+            st0, c, e, h = model_value(m, d), model_value(m, closed) == 1, model_value(m, err_d) == 1, model_value(m, oh_d)
+            want = py_link_detach(st0, c, e)
+            return f"link_detach {st0} {h} {int(c)} {int(e)}", (lambda js: js.get("panic") or (js["state"], js["ok"]) != want or (h == 1 and not js["has_handle"] and js["state"] not in (9, 12)))
+
+        o.prove(f"path{i}:next-state", hyp + p.cond, post == z3.If(closed, nxt_closed, nxt_open), replay=replay_ld)
         legal = z3.If(closed, z3.Or(in_attach, d == E["DetachSent"], d == E["CloseSent"]), z3.Or(d == E["Attached"], d == E["DetachSent"]))
-        o.prove(f"path{i}:illegal-is-error", hyp + p.cond + [z3.Not(legal)], z3.Not(ok))
+        o.prove(f"path{i}:illegal-is-error", hyp + p.cond + [z3.Not(legal)], z3.Not(ok), replay=replay_ld)
         # the peer's error is surfaced; closing answered to a non-closing detach is surfaced
-        o.prove(f"path{i}:peer-error-surfaced", hyp + p.cond + [err_d == 1], z3.Not(ok))
-        o.prove(f"path{i}:closed-by-remote-surfaced", hyp + p.cond + [closed, d == E["DetachSent"]], z3.Not(ok))
-        o.prove(f"path{i}:clean", hyp + p.cond + [legal, err_d == 0, z3.Not(z3.And(closed, d == E["DetachSent"]))], ok)
+        o.prove(f"path{i}:peer-error-surfaced", hyp + p.cond + [err_d == 1], z3.Not(ok), replay=replay_ld)
+        o.prove(f"path{i}:closed-by-remote-surfaced", hyp + p.cond + [closed, d == E["DetachSent"]], z3.Not(ok), replay=replay_ld)
+        o.prove(f"path{i}:clean", hyp + p.cond + [legal, err_d == 0, z3.Not(z3.And(closed, d == E["DetachSent"]))], ok, replay=replay_ld)
         # handle release: the handle is taken (calls Option::take on the handle) only on -> Detached / Closed
         takes = count_calls(p, r"Option::<.*OutputHandle.*>::take$")
         if takes:
-            o.prove(f"path{i}:handle-released-only-when-done", hyp + p.cond, z3.Or(post == E["Detached"], post == E["Closed"]))
+            o.prove(f"path{i}:handle-released-only-when-done", hyp + p.cond, z3.Or(post == E["Detached"], post == E["Closed"]), replay=replay_ld)
     o.cover("paths", [z3.BoolVal(n > 0)])
     out.append(o)
 
@@ -633,14 +740,19 @@ def c13_link(env):
         post = p.locals["@self"][env.fidx("Link", "local_state")]["#d"]
         sends = count_calls(p, r"mpsc::Sender::<.*>::send$")
         nxt = z3.If(closed, z3.If(d == E["Attached"], ls("CloseSent"), z3.If(d == E["CloseReceived"], ls("Closed"), d)), z3.If(d == E["Attached"], ls("DetachSent"), z3.If(d == E["DetachReceived"], ls("Detached"), d)))
-        o.prove(f"path{i}:next-state", hyp + p.cond, post == nxt)
+        def replay_sd(m, d=d, closed=closed):
+            st0, c = model_value(m, d), model_value(m, closed) == 1
+            want_state, legal_ = py_link_send_detach(st0, c)
+            return f"link_send_detach {st0} 1 {int(c)}", (lambda js: js.get("panic") or js["state"] != want_state or (js["ok"] and not legal_) or js["frames"] > 1 or (js["frames"] > 0 and not legal_))
+
+        o.prove(f"path{i}:next-state", hyp + p.cond, post == nxt, replay=replay_sd)
         legal = z3.If(closed, z3.Or(d == E["Attached"], d == E["CloseReceived"]), z3.Or(d == E["Attached"], d == E["DetachReceived"]))
         o.prove(f"path{i}:at-most-one-frame", hyp + p.cond, z3.BoolVal(sends <= 1))
         if sends:
-            o.prove(f"path{i}:frame-only-when-legal", hyp + p.cond, legal)
+            o.prove(f"path{i}:frame-only-when-legal", hyp + p.cond, legal, replay=replay_sd)
         is_ready, is_ok = poll_ready_result(p.ret)
         if z3.is_true(z3.simplify(is_ready)) and is_ok is not None:
-            o.prove(f"path{i}:ok-implies-legal", hyp + p.cond + [is_ok], legal)
+            o.prove(f"path{i}:ok-implies-legal", hyp + p.cond + [is_ok], legal, replay=replay_sd)
             o.prove(f"path{i}:mismatched-answer-refused", hyp + p.cond + [z3.Or(z3.And(d == E["CloseReceived"], z3.Not(closed)), z3.And(d == E["DetachReceived"], closed))], z3.Not(is_ok))
     o.cover("paths", [z3.BoolVal(n > 0)])
     out.append(o)
@@ -671,22 +783,31 @@ def c17_allocate(env):
         ok = p.ret["#d"] == 0
         inserts = count_calls(p, r"VacantEntry::<.*>::insert$")
         okv = z3.is_true(z3.simplify(ok))
+        key_any = call_result(p, r"VacantEntry::<.*>::key$")
+
+        def replay_alloc(m, d=d, mx=mx, key_any=key_any):
+            st0, mxv = model_value(m, d), model_value(m, mx)
+            k = min(model_value(m, key_any), 40) if key_any is not None else 0
+            opened = st0 not in (0, 1, 2, 3, 11, 12, 13)
+            want_ok = opened and k <= mxv
+            return f"alloc {st0} {mxv} {k}", (lambda js: js.get("panic") or js["ok"] != want_ok or (js["ok"] and (js["channel"] > mxv or js["channel"] != k or js["sessions_after"] != js["sessions_before"] + 1)) or (not js["ok"] and js["sessions_after"] != js["sessions_before"]))
+
         if okv:
             ch = p.ret[("as", "Ok")][0][0]
             key = call_result(p, r"VacantEntry::<.*>::key$")
             if key is None:
                 raise mir.Unsupported("call to VacantEntry::key not found")
-            o.prove(f"path{i}:channel<=channel-max", hyp + p.cond, z3.ULE(ch, mx))
-            o.prove(f"path{i}:channel-is-vacant-key", hyp + p.cond, z3.ZeroExt(48, ch) == key)
-            o.prove(f"path{i}:recorded", hyp + p.cond, z3.BoolVal(inserts == 1))
+            o.prove(f"path{i}:channel<=channel-max", hyp + p.cond, z3.ULE(ch, mx), replay=replay_alloc)
+            o.prove(f"path{i}:channel-is-vacant-key", hyp + p.cond, z3.ZeroExt(48, ch) == key, replay=replay_alloc)
+            o.prove(f"path{i}:recorded", hyp + p.cond, z3.BoolVal(inserts == 1), replay=replay_alloc)
             closed_or_unopened = z3.Or(*[d == E[k] for k in ("Start", "HeaderReceived", "HeaderSent", "HeaderExchange", "CloseSent", "Discarding", "End")])
-            o.prove(f"path{i}:only-while-open", hyp + p.cond, z3.Not(closed_or_unopened))
+            o.prove(f"path{i}:only-while-open", hyp + p.cond, z3.Not(closed_or_unopened), replay=replay_alloc)
         else:
-            o.prove(f"path{i}:refusal-allocates-nothing", hyp + p.cond, z3.BoolVal(inserts == 0))
+            o.prove(f"path{i}:refusal-allocates-nothing", hyp + p.cond, z3.BoolVal(inserts == 0), replay=replay_alloc)
             key = call_result(p, r"VacantEntry::<.*>::key$")
             if key is not None:
                 # refused after looking at the slab: only because the free channel exceeds channel-max
-                o.prove(f"path{i}:refused-only-above-max", hyp + p.cond, z3.UGT(key, z3.ZeroExt(48, mx)))
+                o.prove(f"path{i}:refused-only-above-max", hyp + p.cond, z3.UGT(key, z3.ZeroExt(48, mx)), replay=replay_alloc)
     o.cover("paths", [z3.BoolVal(n > 0)])
     return [o]
 
